@@ -699,6 +699,7 @@ def run(F, R, config="all"):
     c02.r7(F, R)
     # ... and the re-whitened point carries the log-determinant of the whole transformation: the entry points of every Transformation go through
     # position map and gradient map and answer with `self.logdet()`, on every path (C02-R4 analysis)
+    c02.r15(F, R, rid="C03-R13")
     K.borrow_rule(R, lambda sub: c02.r3_r4(F, sub), "C03-R12", "the Transformation entry points (init_from_*, inv_transform_normalize) apply position map, density and "
                   "gradient map of their own type in order on every path and return its log-determinant: the energy baseline of the trajectory after an update is "
                   "taken in the same coordinates as every later point (C02-R4 analysis)", only_rules={"C02-R4"})
